@@ -659,6 +659,26 @@ pub fn run(opts: &Opts, out: &mut Emitter, prop: &str) {
             E::String("7".into()),
             E::List(vec![E::Number(7)]),
         ];
+        // the amount of a one-entry value is read the same way, to any depth: nest each shape 1, 2, 3 and 5 deep
+        // (under a naked entry and under a token entry)
+        let nest = |inner: &E, depth: usize, token: bool| {
+            let mut e = inner.clone();
+            for _ in 0..depth {
+                e = E::Assets(vec![tir::AssetExpr {
+                    policy: if token { E::Bytes(policy(3)) } else { E::None },
+                    asset_name: if token { E::Bytes(b"N".to_vec()) } else { E::None },
+                    amount: e,
+                }]);
+            }
+            e
+        };
+        let mut shapes = shapes;
+        let base: Vec<E> = shapes.clone();
+        for (k, inner) in base.iter().enumerate() {
+            for depth in [1usize, 2, 3, 5] {
+                shapes.push(nest(inner, depth, (k + depth) % 2 == 0));
+            }
+        }
         for pos in 0..6 {
             for shape in shapes.iter() {
                 let mut t = empty_tx();
